@@ -300,6 +300,16 @@ def run_e2e(ctx, doc):
         else:
             meta.append((form, labels, c[0], None))
         cases.append(case)
+    # the one operation that answers 200 before its backend has finished (keep-alive body): an error the backend returns late is appended
+    # to a body that has already begun with the XML declaration, and the whole body must still be one well-formed error document
+    cmu = [c for c in R.CARRIERS if c[0] == "CompleteMultipartUpload"][0]
+    late = [("InternalError", "We encountered an internal error.", "4442587FB7D0A2F9"), ("NoSuchUpload", None, None), ("InvalidPart", "a<b>&\"c\"", None),
+            ("MyCustomCode", None, "id<&>\""), ("EntityTooSmall", "", ""), ("InvalidPartOrder", "é中 ]]> &amp;", "é")]
+    for g3 in late:
+        case = dict(config=dict(host=None, auth={R.S.AK: R.S.SK}, access="allow", route="none"), request=R.v4_header(cmu, now).wire())
+        g = (g3[0], g3[1], g3[2], None, None)
+        case["script"] = {"*": dict(error=err_json(*g))}
+        cases.append(case); meta.append(("v4h", ["late-error"], "CompleteMultipartUpload", g))
     res = vlib.run_impl("svc", cases)
     exprs, eidx = [], []
     for idx, (case, r, mt) in enumerate(zip(cases, res, meta)):
@@ -316,6 +326,16 @@ def run_e2e(ctx, doc):
         if why:
             ctx.violation(dict(stage="e2e", kind=why, form=mt[0], mutations=mt[1], operation=mt[2], config=case["config"], request=case["request"], script=case.get("script")))
             continue
+        if mt[3] is not None and reached and mt[2] == "CompleteMultipartUpload" and "body" in resp and not resp.get("body_error"):
+            g = mt[3]
+            d = parse_error_xml(bytes.fromhex(resp["body"]))
+            norm = lambda t: None if t is None else t.replace("\r\n", "\n").replace("\r", "\n")
+            ctx.count("e2e.late_errors_judged")
+            if all(t is None or XML_OK.match(t) for t in g[:3]) and (d is None or d["code"] != g[0] or d["message"] != norm(g[1]) or d["request_id"] != norm(g[2])):
+                ctx.violation(dict(stage="e2e-late-error", kind="an error the backend returned after the response had begun is not a well-formed error document carrying its "
+                                   "code, message and request id: %r" % (d,), error=g, request=case["request"], config=case["config"],
+                                   body=bytes.fromhex(resp["body"]).decode("utf8", "replace")[:400]))
+                continue
         ctx.nontrivial((mt[0], tuple(mt[1]), mt[2], resp.get("status"), resp.get("body", "")[:60]))
         # (CompleteMultipartUpload answers 200 first and reports a late error inside the body: C03's keep-alive model)
         if mt[3] is not None and reached and "status" in resp and mt[2] != "CompleteMultipartUpload":
